@@ -8,11 +8,11 @@ ID = 'C14'
 LEVEL = 'exploration'
 RULE = ('keepalive in {0,1,2,5,30,65535} and idle time in {0,1,3,10,60} drawn per side, MRUs / initial segment sizes / '
         'modulate_target_ack_time drawn, link latencies drawn per write, a quarter of the runs over a slow link (0.3-4 kB/s, so that octets of a message keep arriving for seconds); traffic placed at drawn times over a 40 s simulated '
-        'horizon; timing clauses judged without back-pressure (unbounded socket buffers) with tolerance 0.5 s + injected stalls; '
+        'horizon; timing clauses judged with tolerance 0.5 s + injected stalls, over unbounded socket buffers or - in a share of the stall runs - over bounded ones, where the writer meets EAGAIN across keepalive deadlines and the cadence has to be back afterwards; '
         'a share of runs black-holes the link after a termination request. Non-trivial: both SESS_INIT exchanged and a timer '
         'interval is configured; distinct = distinct event-history digests.')
 COMPONENTS = tc.COMPONENTS
-PROBES = ('wire.KEEPALIVE', 'wire.SESS_TERM', 'probe.idle_term', 'probe.params_queried', 'fault.blackhole', 'probe.modulated', 'probe.slow_link')
+PROBES = ('wire.KEEPALIVE', 'wire.SESS_TERM', 'probe.idle_term', 'probe.params_queried', 'fault.blackhole', 'probe.modulated', 'probe.slow_link', 'probe.eagain_with_timers')
 ASSUMPTIONS = ['as C01', 'timers are judged on the virtual clock; tolerance 0.5 s covers simulated loop latency']
 CHUNK = 10
 
@@ -31,11 +31,19 @@ def gen(ch, tier):
         prof['faults'] = True
         prof['fault_kinds'] = ('stall', 'slow')
     plan = tcpcl_pair.gen_plan(ch, prof)
+    if mode == 2 and ch.coin('bounded', 1, 2):
+        # bounded socket buffers: while the link stalls, the writer meets EAGAIN across keepalive deadlines; once the stall is
+        # over the cadence has to be back (the tolerance of the timing clauses already contains every injected stall)
+        plan['net'] = dict(plan['net'], tcp_capacity=ch.choice('bcap', (2048, 4096, 16384)))
+        plan['bounded'] = True
+        for flt in plan['faults']:
+            if flt['kind'] == 'stall':
+                flt['dur'] = ch.choice('bdur', (2, 7, 12)) * tcpcl_pair.SEC
     # spread traffic over the horizon so that it races the timers
     for op in plan['ops']:
         if op['op'] == 'send' and 't' in op and ch.coin('late', 1, 2):
             op['t'] = ch.pick('late.t', 35) * tcpcl_pair.SEC + ch.choice('late.eps', (0, 999000, 1000, 500000))
-    if ch.coin('slowlink', 1, 4):
+    if not plan.get('bounded') and ch.coin('slowlink', 1, 4):
         # a slow link: messages trickle in over seconds, so octets keep arriving while no message completes
         plan['net'] = dict(plan['net'], tcp_rate=ch.choice('rate', (300, 1000, 4000)))
     plan['ops'].append(dict(t=2 * tcpcl_pair.SEC, node='A', op='params'))
@@ -62,6 +70,8 @@ def describe(run):
             extra['probe.idle_term'] = 1
     if run.plan['net'].get('tcp_rate'):
         extra['probe.slow_link'] = 1
+    if run.plan.get('bounded') and run.wld.counters.get('tcp.eagain'):
+        extra['probe.eagain_with_timers'] = 1
     if any(call[3] == 'get_session_parameters' and isinstance(call[5], dict) and call[5] for call in run.calls):
         extra['probe.params_queried'] = 1
     if any(run.plan['cfg'][side].get('modulate_target_ack_time') for side in ('A', 'P')):
